@@ -17,7 +17,7 @@ type Spec struct {
 	Ratio  int    `json:"ratio,omitempty"`
 	Rect   [4]int `json:"rect"`   // visible bounds x0,y0,x1,y1
 	Parent [4]int `json:"parent"` // parent bounds (== Rect when not a sub-image)
-	Fill   string `json:"fill"`   // prng, ff, zero, ramp
+	Fill   string `json:"fill"`   // prng, ff, zero, ramp (orbit-h / orbit-v are resolved by C10 after building)
 	Seed   uint64 `json:"seed"`
 	PalN   int    `json:"paln,omitempty"`
 	Wrap   bool   `json:"wrap,omitempty"` // hide the concrete type
@@ -52,6 +52,8 @@ type filler struct {
 func (f *filler) next() byte {
 	f.i++
 	switch f.mode {
+	case "orbit-h", "orbit-v":
+		return byte(f.i*37 + f.i>>8) // start content; C10 overwrites it with orbits of the transform
 	case "ff":
 		return 0xFF
 	case "zero":
@@ -198,6 +200,7 @@ type GenOpts struct {
 	MaxDim     int
 	AllowWrap  bool
 	NonNegOnly bool // force non-negative coordinates for every type
+	Orbit      bool // also draw the orbit fills (meaningful to C10 only)
 	TallRows   int  // when > 0, a quarter of the images have between MaxDim+1 and TallRows rows
 }
 
@@ -252,7 +255,11 @@ func Gen(t *rapid.T, label string, o GenOpts) Spec {
 		}
 		s.Parent = [4]int{x0 - ml, y0 - mt, x0 + w + mr, y0 + h + mb}
 	}
-	s.Fill = rapid.SampledFrom([]string{"prng", "prng", "prng", "ff", "zero", "ramp"}).Draw(t, label+"fill")
+	fills := []string{"prng", "prng", "prng", "ff", "zero", "ramp"}
+	if o.Orbit {
+		fills = append(fills, "orbit-h", "orbit-v")
+	}
+	s.Fill = rapid.SampledFrom(fills).Draw(t, label+"fill")
 	s.Seed = rapid.Uint64().Draw(t, label+"seed")
 	if o.AllowWrap {
 		s.Wrap = rapid.IntRange(0, 4).Draw(t, label+"wrap") == 0
